@@ -89,6 +89,16 @@ def check(ctx, r, rid="R"):
                 r.viol("%s:%s#locale-read" % (rid, key), "the locale is not read where it must be (%s): `%s`" % (why, whole[:300]), file=TF, line=tf.line)
     # ---- t_plural!
     forms = L(T(TOK("one"), TOK("{ ONE }")), T(TOK("few"), TOK("{ FEW }")))
+    # without a `_` arm (every category listed by the caller) the generated match is still a well-formed match: arms separated by
+    # commas, no stray one
+    v0 = mk().run_fn(tp, [CF("ParsedInput", context=TOK("CTX_EXPR"), count=TOK("COUNT_EXPR"), forms=forms, fallback=C("None")), C("Locale"), TOK("RULE_TYPE")])
+    if isinstance(v0, str) or v0[0] != "tok":
+        raise Unknown("t_plural_inner (no fallback): %s" % (v0 if isinstance(v0, str) else absint.fmt(v0)[:80]))
+    w0 = text(tree(tokenize(v0[1])))
+    if not re.search(r"\{\s*one => \{ ONE \} , few => \{ FEW \} ,?\s*\}", w0):
+        r.viol("%s:t_plural_inner#no-fallback" % rid, "without a `_` arm the generated match is `%s`: not `{ one => .., few => .. }` (a lone comma does not compile, so listing every category is impossible)" % w0[-200:], file=TP, line=tp.line)
+    else:
+        n += 1
     for inp in ("Context", "Untracked", "Locale"):
         v = mk().run_fn(tp, [CF("ParsedInput", context=TOK("CTX_EXPR"), count=TOK("COUNT_EXPR"), forms=forms, fallback=C("Some", T(TOK("{ OTHER }"), absint.A("span")))), C(inp), TOK("RULE_TYPE")])
         if isinstance(v, str) or v[0] != "tok":
